@@ -10,6 +10,10 @@
 -/
 import Golib.HMap.Types
 import Golib.Gen.C09
+import Golib.Gen.C09IR
+import Golib.HMap.IR
+
+set_option linter.unusedSectionVars false
 
 namespace C09Gen
 open HMap
@@ -57,5 +61,270 @@ theorem StringLinkedSet_desc : ∃ m, findType linkedTypes "StringLinkedSet" = s
 theorem types_match :
     (Gen.C09.types.map (·.name) = linkedTypes.map (·.name)) ∧
     (Gen.C09.types.zip linkedTypes).all (fun p => decide (p.1 = p.2) || decide (p.1 = p.2.repaired)) = true := by decide
+
+
+/-! ### interpreted tie A: the transcribed statements of put / add / addNoOver / remove / rehash, run with the
+    semantics of `Golib.HMap.IR`, are the CodeModel's steps — for every state, key, value, mode, hash function and
+    threshold function.  (`Gen.C09IR.*` is regenerated from the Go source on every run.) -/
+
+section interpreted
+open HMap.IR
+variable {K V : Type} [DecidableEq K] [DecidableEq V]
+
+/-- LinkedMap.put -/
+theorem LinkedMap_put_interp (d : Desc K V) (hash : K → Nat) (thr : Nat → Nat) (m : LMap K V) (mode : Mode) (k : K) (v : V) :
+    run d hash thr mode k v Gen.C09IR.LinkedMap_put m = expectPut d hash thr (putShape "LinkedMap") m mode k v :=
+  put_linked_interp d hash thr (putShape "LinkedMap") rfl (by decide) rfl rfl rfl _ (by decide) m mode k v
+
+/-- LinkedMap.remove -/
+theorem LinkedMap_remove_interp (d : Desc K V) (hash : K → Nat) (thr : Nat → Nat) (m : LMap K V) (mode : Mode) (k : K) (v : V) :
+    run d hash thr mode k v Gen.C09IR.LinkedMap_remove m = expectRemove hash (removeShape "LinkedMap") m k :=
+  remove_linked_interp d hash thr (removeShape "LinkedMap") rfl rfl _ (by decide) m mode k v
+
+/-- LinkedMap.rehash -/
+theorem LinkedMap_rehash_interp (hash : K → Nat) (thr : Nat → Nat) (m : LMap K V) :
+    interpRehash hash thr Gen.C09IR.LinkedMap_rehash m = m.rehash hash thr := by
+  rw [show Gen.C09IR.LinkedMap_rehash = canonRehash from by decide]; exact rehash_correct hash thr m
+
+/-- IntKeyLinkedMap.put -/
+theorem IntKeyLinkedMap_put_interp (d : Desc K V) (hash : K → Nat) (thr : Nat → Nat) (m : LMap K V) (mode : Mode) (k : K) (v : V) :
+    run d hash thr mode k v Gen.C09IR.IntKeyLinkedMap_put m = expectPut d hash thr (putShape "IntKeyLinkedMap") m mode k v :=
+  put_linked_interp d hash thr (putShape "IntKeyLinkedMap") rfl (by decide) rfl rfl rfl _ (by decide) m mode k v
+
+/-- IntKeyLinkedMap.remove -/
+theorem IntKeyLinkedMap_remove_interp (d : Desc K V) (hash : K → Nat) (thr : Nat → Nat) (m : LMap K V) (mode : Mode) (k : K) (v : V) :
+    run d hash thr mode k v Gen.C09IR.IntKeyLinkedMap_remove m = expectRemove hash (removeShape "IntKeyLinkedMap") m k :=
+  remove_linked_interp d hash thr (removeShape "IntKeyLinkedMap") rfl rfl _ (by decide) m mode k v
+
+/-- IntKeyLinkedMap.rehash -/
+theorem IntKeyLinkedMap_rehash_interp (hash : K → Nat) (thr : Nat → Nat) (m : LMap K V) :
+    interpRehash hash thr Gen.C09IR.IntKeyLinkedMap_rehash m = m.rehash hash thr := by
+  rw [show Gen.C09IR.IntKeyLinkedMap_rehash = canonRehash from by decide]; exact rehash_correct hash thr m
+
+/-- LongKeyLinkedMap.put -/
+theorem LongKeyLinkedMap_put_interp (d : Desc K V) (hash : K → Nat) (thr : Nat → Nat) (m : LMap K V) (mode : Mode) (k : K) (v : V) :
+    run d hash thr mode k v Gen.C09IR.LongKeyLinkedMap_put m = expectPut d hash thr (putShape "LongKeyLinkedMap") m mode k v :=
+  put_linked_interp d hash thr (putShape "LongKeyLinkedMap") rfl (by decide) rfl rfl rfl _ (by decide) m mode k v
+
+/-- LongKeyLinkedMap.remove -/
+theorem LongKeyLinkedMap_remove_interp (d : Desc K V) (hash : K → Nat) (thr : Nat → Nat) (m : LMap K V) (mode : Mode) (k : K) (v : V) :
+    run d hash thr mode k v Gen.C09IR.LongKeyLinkedMap_remove m = expectRemove hash (removeShape "LongKeyLinkedMap") m k :=
+  remove_linked_interp d hash thr (removeShape "LongKeyLinkedMap") rfl rfl _ (by decide) m mode k v
+
+/-- LongKeyLinkedMap.rehash -/
+theorem LongKeyLinkedMap_rehash_interp (hash : K → Nat) (thr : Nat → Nat) (m : LMap K V) :
+    interpRehash hash thr Gen.C09IR.LongKeyLinkedMap_rehash m = m.rehash hash thr := by
+  rw [show Gen.C09IR.LongKeyLinkedMap_rehash = canonRehash from by decide]; exact rehash_correct hash thr m
+
+/-- StringKeyLinkedMap.put -/
+theorem StringKeyLinkedMap_put_interp (d : Desc K V) (hash : K → Nat) (thr : Nat → Nat) (m : LMap K V) (mode : Mode) (k : K) (v : V) :
+    run d hash thr mode k v Gen.C09IR.StringKeyLinkedMap_put m = expectPut d hash thr (putShape "StringKeyLinkedMap") m mode k v :=
+  put_linked_interp d hash thr (putShape "StringKeyLinkedMap") rfl (by decide) rfl rfl rfl _ (by decide) m mode k v
+
+/-- StringKeyLinkedMap.remove -/
+theorem StringKeyLinkedMap_remove_interp (d : Desc K V) (hash : K → Nat) (thr : Nat → Nat) (m : LMap K V) (mode : Mode) (k : K) (v : V) :
+    run d hash thr mode k v Gen.C09IR.StringKeyLinkedMap_remove m = expectRemove hash (removeShape "StringKeyLinkedMap") m k :=
+  remove_linked_interp d hash thr (removeShape "StringKeyLinkedMap") rfl rfl _ (by decide) m mode k v
+
+/-- StringKeyLinkedMap.rehash -/
+theorem StringKeyLinkedMap_rehash_interp (hash : K → Nat) (thr : Nat → Nat) (m : LMap K V) :
+    interpRehash hash thr Gen.C09IR.StringKeyLinkedMap_rehash m = m.rehash hash thr := by
+  rw [show Gen.C09IR.StringKeyLinkedMap_rehash = canonRehash from by decide]; exact rehash_correct hash thr m
+
+/-- IntIntLinkedMap.put -/
+theorem IntIntLinkedMap_put_interp (d : Desc K V) (hash : K → Nat) (thr : Nat → Nat) (m : LMap K V) (mode : Mode) (k : K) (v : V) :
+    run d hash thr mode k v Gen.C09IR.IntIntLinkedMap_put m = expectPut d hash thr (putShape "IntIntLinkedMap") m mode k v :=
+  put_linked_interp d hash thr (putShape "IntIntLinkedMap") rfl (by decide) rfl rfl rfl _ (by decide) m mode k v
+
+/-- IntIntLinkedMap.add / _add -/
+theorem IntIntLinkedMap_add_interp (d : Desc K V) (hash : K → Nat) (thr : Nat → Nat) (m : LMap K V) (mode : Mode) (k : K) (v : V) :
+    run d hash thr mode k v Gen.C09IR.IntIntLinkedMap_add m = expectPut d hash thr (addShape "IntIntLinkedMap") m mode k v :=
+  put_linked_interp d hash thr (addShape "IntIntLinkedMap") rfl (by decide) rfl rfl rfl _ (by decide) m mode k v
+
+/-- IntIntLinkedMap.remove -/
+theorem IntIntLinkedMap_remove_interp (d : Desc K V) (hash : K → Nat) (thr : Nat → Nat) (m : LMap K V) (mode : Mode) (k : K) (v : V) :
+    run d hash thr mode k v Gen.C09IR.IntIntLinkedMap_remove m = expectRemove hash (removeShape "IntIntLinkedMap") m k :=
+  remove_linked_interp d hash thr (removeShape "IntIntLinkedMap") rfl rfl _ (by decide) m mode k v
+
+/-- IntIntLinkedMap.rehash -/
+theorem IntIntLinkedMap_rehash_interp (hash : K → Nat) (thr : Nat → Nat) (m : LMap K V) :
+    interpRehash hash thr Gen.C09IR.IntIntLinkedMap_rehash m = m.rehash hash thr := by
+  rw [show Gen.C09IR.IntIntLinkedMap_rehash = canonRehash from by decide]; exact rehash_correct hash thr m
+
+/-- IntFloatLinkedMap.put -/
+theorem IntFloatLinkedMap_put_interp (d : Desc K V) (hash : K → Nat) (thr : Nat → Nat) (m : LMap K V) (mode : Mode) (k : K) (v : V) :
+    run d hash thr mode k v Gen.C09IR.IntFloatLinkedMap_put m = expectPut d hash thr (putShape "IntFloatLinkedMap") m mode k v :=
+  put_linked_interp d hash thr (putShape "IntFloatLinkedMap") rfl (by decide) rfl rfl rfl _ (by decide) m mode k v
+
+/-- IntFloatLinkedMap.add / _add -/
+theorem IntFloatLinkedMap_add_interp (d : Desc K V) (hash : K → Nat) (thr : Nat → Nat) (m : LMap K V) (mode : Mode) (k : K) (v : V) :
+    run d hash thr mode k v Gen.C09IR.IntFloatLinkedMap_add m = expectPut d hash thr (addShape "IntFloatLinkedMap") m mode k v :=
+  put_linked_interp d hash thr (addShape "IntFloatLinkedMap") rfl (by decide) rfl rfl rfl _ (by decide) m mode k v
+
+/-- IntFloatLinkedMap.remove -/
+theorem IntFloatLinkedMap_remove_interp (d : Desc K V) (hash : K → Nat) (thr : Nat → Nat) (m : LMap K V) (mode : Mode) (k : K) (v : V) :
+    run d hash thr mode k v Gen.C09IR.IntFloatLinkedMap_remove m = expectRemove hash (removeShape "IntFloatLinkedMap") m k :=
+  remove_linked_interp d hash thr (removeShape "IntFloatLinkedMap") rfl rfl _ (by decide) m mode k v
+
+/-- IntFloatLinkedMap.rehash -/
+theorem IntFloatLinkedMap_rehash_interp (hash : K → Nat) (thr : Nat → Nat) (m : LMap K V) :
+    interpRehash hash thr Gen.C09IR.IntFloatLinkedMap_rehash m = m.rehash hash thr := by
+  rw [show Gen.C09IR.IntFloatLinkedMap_rehash = canonRehash from by decide]; exact rehash_correct hash thr m
+
+/-- LongFloatLinkedMap.put -/
+theorem LongFloatLinkedMap_put_interp (d : Desc K V) (hash : K → Nat) (thr : Nat → Nat) (m : LMap K V) (mode : Mode) (k : K) (v : V) :
+    run d hash thr mode k v Gen.C09IR.LongFloatLinkedMap_put m = expectPut d hash thr (putShape "LongFloatLinkedMap") m mode k v :=
+  put_linked_interp d hash thr (putShape "LongFloatLinkedMap") rfl (by decide) rfl rfl rfl _ (by decide) m mode k v
+
+/-- LongFloatLinkedMap.add / _add -/
+theorem LongFloatLinkedMap_add_interp (d : Desc K V) (hash : K → Nat) (thr : Nat → Nat) (m : LMap K V) (mode : Mode) (k : K) (v : V) :
+    run d hash thr mode k v Gen.C09IR.LongFloatLinkedMap_add m = expectPut d hash thr (addShape "LongFloatLinkedMap") m mode k v :=
+  put_linked_interp d hash thr (addShape "LongFloatLinkedMap") rfl (by decide) rfl rfl rfl _ (by decide) m mode k v
+
+/-- LongFloatLinkedMap.remove -/
+theorem LongFloatLinkedMap_remove_interp (d : Desc K V) (hash : K → Nat) (thr : Nat → Nat) (m : LMap K V) (mode : Mode) (k : K) (v : V) :
+    run d hash thr mode k v Gen.C09IR.LongFloatLinkedMap_remove m = expectRemove hash (removeShape "LongFloatLinkedMap") m k :=
+  remove_linked_interp d hash thr (removeShape "LongFloatLinkedMap") rfl rfl _ (by decide) m mode k v
+
+/-- LongFloatLinkedMap.rehash -/
+theorem LongFloatLinkedMap_rehash_interp (hash : K → Nat) (thr : Nat → Nat) (m : LMap K V) :
+    interpRehash hash thr Gen.C09IR.LongFloatLinkedMap_rehash m = m.rehash hash thr := by
+  rw [show Gen.C09IR.LongFloatLinkedMap_rehash = canonRehash from by decide]; exact rehash_correct hash thr m
+
+/-- LongLongLinkedMap.put -/
+theorem LongLongLinkedMap_put_interp (d : Desc K V) (hash : K → Nat) (thr : Nat → Nat) (m : LMap K V) (mode : Mode) (k : K) (v : V) :
+    run d hash thr mode k v Gen.C09IR.LongLongLinkedMap_put m = expectPut d hash thr (putShape "LongLongLinkedMap") m mode k v :=
+  put_linked_interp d hash thr (putShape "LongLongLinkedMap") rfl (by decide) rfl rfl rfl _ (by decide) m mode k v
+
+/-- LongLongLinkedMap.add / _add -/
+theorem LongLongLinkedMap_add_interp (d : Desc K V) (hash : K → Nat) (thr : Nat → Nat) (m : LMap K V) (mode : Mode) (k : K) (v : V) :
+    run d hash thr mode k v Gen.C09IR.LongLongLinkedMap_add m = expectPut d hash thr (addShape "LongLongLinkedMap") m mode k v :=
+  put_linked_interp d hash thr (addShape "LongLongLinkedMap") rfl (by decide) rfl rfl rfl _ (by decide) m mode k v
+
+/-- LongLongLinkedMap.remove -/
+theorem LongLongLinkedMap_remove_interp (d : Desc K V) (hash : K → Nat) (thr : Nat → Nat) (m : LMap K V) (mode : Mode) (k : K) (v : V) :
+    run d hash thr mode k v Gen.C09IR.LongLongLinkedMap_remove m = expectRemove hash (removeShape "LongLongLinkedMap") m k :=
+  remove_linked_interp d hash thr (removeShape "LongLongLinkedMap") rfl rfl _ (by decide) m mode k v
+
+/-- LongLongLinkedMap.rehash -/
+theorem LongLongLinkedMap_rehash_interp (hash : K → Nat) (thr : Nat → Nat) (m : LMap K V) :
+    interpRehash hash thr Gen.C09IR.LongLongLinkedMap_rehash m = m.rehash hash thr := by
+  rw [show Gen.C09IR.LongLongLinkedMap_rehash = canonRehash from by decide]; exact rehash_correct hash thr m
+
+/-- StringIntLinkedMap.put -/
+theorem StringIntLinkedMap_put_interp (d : Desc K V) (hash : K → Nat) (thr : Nat → Nat) (m : LMap K V) (mode : Mode) (k : K) (v : V) :
+    run d hash thr mode k v Gen.C09IR.StringIntLinkedMap_put m = expectPut d hash thr (putShape "StringIntLinkedMap") m mode k v :=
+  put_linked_interp d hash thr (putShape "StringIntLinkedMap") rfl (by decide) rfl rfl rfl _ (by decide) m mode k v
+
+/-- StringIntLinkedMap.add / _add -/
+theorem StringIntLinkedMap_add_interp (d : Desc K V) (hash : K → Nat) (thr : Nat → Nat) (m : LMap K V) (mode : Mode) (k : K) (v : V) :
+    run d hash thr mode k v Gen.C09IR.StringIntLinkedMap_add m = expectPut d hash thr (addShape "StringIntLinkedMap") m mode k v :=
+  put_linked_interp d hash thr (addShape "StringIntLinkedMap") rfl (by decide) rfl rfl rfl _ (by decide) m mode k v
+
+/-- StringIntLinkedMap.remove -/
+theorem StringIntLinkedMap_remove_interp (d : Desc K V) (hash : K → Nat) (thr : Nat → Nat) (m : LMap K V) (mode : Mode) (k : K) (v : V) :
+    run d hash thr mode k v Gen.C09IR.StringIntLinkedMap_remove m = expectRemove hash (removeShape "StringIntLinkedMap") m k :=
+  remove_linked_interp d hash thr (removeShape "StringIntLinkedMap") rfl rfl _ (by decide) m mode k v
+
+/-- StringIntLinkedMap.rehash -/
+theorem StringIntLinkedMap_rehash_interp (hash : K → Nat) (thr : Nat → Nat) (m : LMap K V) :
+    interpRehash hash thr Gen.C09IR.StringIntLinkedMap_rehash m = m.rehash hash thr := by
+  rw [show Gen.C09IR.StringIntLinkedMap_rehash = canonRehash from by decide]; exact rehash_correct hash thr m
+
+/-- StringLongLinkedMap.put -/
+theorem StringLongLinkedMap_put_interp (d : Desc K V) (hash : K → Nat) (thr : Nat → Nat) (m : LMap K V) (mode : Mode) (k : K) (v : V) :
+    run d hash thr mode k v Gen.C09IR.StringLongLinkedMap_put m = expectPut d hash thr (putShape "StringLongLinkedMap") m mode k v :=
+  put_linked_interp d hash thr (putShape "StringLongLinkedMap") rfl (by decide) rfl rfl rfl _ (by decide) m mode k v
+
+/-- StringLongLinkedMap.add / _add -/
+theorem StringLongLinkedMap_add_interp (d : Desc K V) (hash : K → Nat) (thr : Nat → Nat) (m : LMap K V) (mode : Mode) (k : K) (v : V) :
+    run d hash thr mode k v Gen.C09IR.StringLongLinkedMap_add m = expectPut d hash thr (addShape "StringLongLinkedMap") m mode k v :=
+  put_linked_interp d hash thr (addShape "StringLongLinkedMap") rfl (by decide) rfl rfl rfl _ (by decide) m mode k v
+
+/-- StringLongLinkedMap.remove -/
+theorem StringLongLinkedMap_remove_interp (d : Desc K V) (hash : K → Nat) (thr : Nat → Nat) (m : LMap K V) (mode : Mode) (k : K) (v : V) :
+    run d hash thr mode k v Gen.C09IR.StringLongLinkedMap_remove m = expectRemove hash (removeShape "StringLongLinkedMap") m k :=
+  remove_linked_interp d hash thr (removeShape "StringLongLinkedMap") rfl rfl _ (by decide) m mode k v
+
+/-- StringLongLinkedMap.rehash -/
+theorem StringLongLinkedMap_rehash_interp (hash : K → Nat) (thr : Nat → Nat) (m : LMap K V) :
+    interpRehash hash thr Gen.C09IR.StringLongLinkedMap_rehash m = m.rehash hash thr := by
+  rw [show Gen.C09IR.StringLongLinkedMap_rehash = canonRehash from by decide]; exact rehash_correct hash thr m
+
+/-- LinkedSet.put(key, m): the set's statements are `putWith` on `V = Unit` -/
+theorem LinkedSet_put_interp {K : Type} [DecidableEq K] (d : Desc K Unit) (hash : K → Nat) (thr : Nat → Nat) (m : LMap K Unit) (mode : Mode) (k : K) :
+    run d hash thr mode k () Gen.C09IR.LinkedSet_put m = expectPut d hash thr (putShape "LinkedSet") m mode k () :=
+  put_set_interp d hash thr (putShape "LinkedSet") rfl rfl rfl rfl rfl rfl _ (by decide) m mode k () (fun _ _ => rfl)
+
+/-- LinkedSet.remove -/
+theorem LinkedSet_remove_interp (d : Desc K V) (hash : K → Nat) (thr : Nat → Nat) (m : LMap K V) (mode : Mode) (k : K) (v : V) :
+    run d hash thr mode k v Gen.C09IR.LinkedSet_remove m = expectRemove hash (removeShape "LinkedSet") m k :=
+  remove_linked_interp d hash thr (removeShape "LinkedSet") rfl rfl _ (by decide) m mode k v
+
+/-- LinkedSet.rehash -/
+theorem LinkedSet_rehash_interp (hash : K → Nat) (thr : Nat → Nat) (m : LMap K V) :
+    interpRehash hash thr Gen.C09IR.LinkedSet_rehash m = m.rehash hash thr := by
+  rw [show Gen.C09IR.LinkedSet_rehash = canonRehash from by decide]; exact rehash_correct hash thr m
+
+/-- IntLinkedSet.put(key, m): the set's statements are `putWith` on `V = Unit` -/
+theorem IntLinkedSet_put_interp {K : Type} [DecidableEq K] (d : Desc K Unit) (hash : K → Nat) (thr : Nat → Nat) (m : LMap K Unit) (mode : Mode) (k : K) :
+    run d hash thr mode k () Gen.C09IR.IntLinkedSet_put m = expectPut d hash thr (putShape "IntLinkedSet") m mode k () :=
+  put_set_interp d hash thr (putShape "IntLinkedSet") rfl rfl rfl rfl rfl rfl _ (by decide) m mode k () (fun _ _ => rfl)
+
+/-- IntLinkedSet.remove -/
+theorem IntLinkedSet_remove_interp (d : Desc K V) (hash : K → Nat) (thr : Nat → Nat) (m : LMap K V) (mode : Mode) (k : K) (v : V) :
+    run d hash thr mode k v Gen.C09IR.IntLinkedSet_remove m = expectRemove hash (removeShape "IntLinkedSet") m k :=
+  remove_linked_interp d hash thr (removeShape "IntLinkedSet") rfl rfl _ (by decide) m mode k v
+
+/-- IntLinkedSet.rehash -/
+theorem IntLinkedSet_rehash_interp (hash : K → Nat) (thr : Nat → Nat) (m : LMap K V) :
+    interpRehash hash thr Gen.C09IR.IntLinkedSet_rehash m = m.rehash hash thr := by
+  rw [show Gen.C09IR.IntLinkedSet_rehash = canonRehash from by decide]; exact rehash_correct hash thr m
+
+/-- StringLinkedSet.put(key, m): the set's statements are `putWith` on `V = Unit` -/
+theorem StringLinkedSet_put_interp {K : Type} [DecidableEq K] (d : Desc K Unit) (hash : K → Nat) (thr : Nat → Nat) (m : LMap K Unit) (mode : Mode) (k : K) :
+    run d hash thr mode k () Gen.C09IR.StringLinkedSet_put m = expectPut d hash thr (putShape "StringLinkedSet") m mode k () :=
+  put_set_interp d hash thr (putShape "StringLinkedSet") rfl rfl rfl rfl rfl rfl _ (by decide) m mode k () (fun _ _ => rfl)
+
+/-- StringLinkedSet.remove -/
+theorem StringLinkedSet_remove_interp (d : Desc K V) (hash : K → Nat) (thr : Nat → Nat) (m : LMap K V) (mode : Mode) (k : K) (v : V) :
+    run d hash thr mode k v Gen.C09IR.StringLinkedSet_remove m = expectRemove hash (removeShape "StringLinkedSet") m k :=
+  remove_linked_interp d hash thr (removeShape "StringLinkedSet") rfl rfl _ (by decide) m mode k v
+
+/-- StringLinkedSet.rehash -/
+theorem StringLinkedSet_rehash_interp (hash : K → Nat) (thr : Nat → Nat) (m : LMap K V) :
+    interpRehash hash thr Gen.C09IR.StringLinkedSet_rehash m = m.rehash hash thr := by
+  rw [show Gen.C09IR.StringLinkedSet_rehash = canonRehash from by decide]; exact rehash_correct hash thr m
+
+/-- IntIntLinkedMap.addNoOver (mode PUT_LAST) -/
+theorem IntIntLinkedMap_addNoOver_interp (d : Desc K V) (hash : K → Nat) (thr : Nat → Nat) (m : LMap K V) (k : K) (v : V)
+    (hnr : d.refuse k = false) :
+    run d hash thr .last k v Gen.C09IR.IntIntLinkedMap_addNoOver m =
+      ((m.addNoOver hash thr d k v).1,
+       some (if (m.tab.get hash k).isSome then Ret.old else if m.isFull then Ret.absent else Ret.absent)) := by
+  rw [show Gen.C09IR.IntIntLinkedMap_addNoOver = canonPut addNoOverShape from by decide]
+  exact canonPut_noOver_correct d hash thr addNoOverShape rfl rfl rfl rfl .absent rfl rfl rfl m k v hnr
+
+/-- the expected results are the CodeModel's own operations (unfolding `expectPut` for an unguarded and a guarded type) -/
+theorem expectPut_is_put (d : Desc K V) (hash : K → Nat) (thr : Nat → Nat) (m : LMap K V) (mode : Mode) (k : K) (v : V) :
+    (expectPut d hash thr (putShape "IntKeyLinkedMap") m mode k v).1 = (m.putWith hash thr mode k (fun _ => v)).1 ∧
+    (expectPut d hash thr (putShape "StringIntLinkedMap") m mode k v).1 = (m.put hash thr d mode k v).1 ∧
+    (expectPut d hash thr (addShape "StringIntLinkedMap") m mode k v).1 = (m.add hash thr d mode k v).1 := by
+  refine ⟨rfl, ?_, ?_⟩
+  · unfold expectPut LMap.put; simp only [putShape, mapPut]; cases d.refuse k <;> rfl
+  · unfold expectPut LMap.add; simp only [addShape, mapPut]; cases d.refuse k <;> rfl
+
+/-- the transcribed `IntKeyLinkedMap.put` and `remove`, run on a concrete map with a bound (constant hash: one chain) -/
+example :
+    let d : Desc Int Int := { comb := fun a b => a + b, veq := fun a b => a == b }
+    let m0 : LMap Int Int := { LMap.new (fun c => c / 2) 1 with max := 2 }
+    let m1 := (run d (fun _ => 7) (fun c => c / 2) .last 1 10 Gen.C09IR.IntKeyLinkedMap_put m0).1
+    let m2 := (run d (fun _ => 7) (fun c => c / 2) .forceFirst 2 20 Gen.C09IR.IntKeyLinkedMap_put m1).1
+    let r3 := run d (fun _ => 7) (fun c => c / 2) .last 3 30 Gen.C09IR.IntKeyLinkedMap_put m2
+    let r4 := run d (fun _ => 7) (fun c => c / 2) .last 3 0 Gen.C09IR.IntKeyLinkedMap_remove r3.1
+    m2.order = [2, 1] ∧ r3.1.order = [1, 3] ∧ r3.2 = some Ret.absent ∧ r4.1.order = [1] ∧ r4.2 = some Ret.old := by
+  decide
+
+end interpreted
 
 end C09Gen
